@@ -148,9 +148,15 @@ def culture_classes(ctx):
 # that are valid only together with some values of the present fields
 TEMPLATE_CONFIGS = {
     "time": (("tmpl=23:59:59.5", (23, 59, 59, 500_000_000)),),
-    "date": (("tmpl=2024-02-29", ("ISO", 2024, 2, 29)), ("tmpl=1999-12-31", ("ISO", 1999, 12, 31))),
-    "datetime": (("tmpl=2024-02-29T23:59:59.5", ("ISO", 2024, 2, 29, 23, 59, 59, 500_000_000)),),
-    "instant": (("tmpl=1999-12-31T23:59:59.5Z", ("ISO", 1999, 12, 31, 23, 59, 59, 500_000_000)),),
+    # ... and one template in each era of the two-era calendars (the CE side is covered by the defaults and cal=...)
+    "date": (("tmpl=2024-02-29", ("ISO", 2024, 2, 29)), ("tmpl=1999-12-31", ("ISO", 1999, 12, 31)),
+             ("tmpl=-0099-01-01 (BCE)", ("ISO", -99, 1, 1)), ("tmpl=Gregorian -0099-01-01 (BCE)", ("Gregorian", -99, 1, 1)),
+             ("tmpl=Julian -0043-03-15 (BCE)", ("Julian", -43, 3, 15)), ("tmpl=Julian 1600-02-29 (CE)", ("Julian", 1600, 2, 29))),
+    "datetime": (("tmpl=2024-02-29T23:59:59.5", ("ISO", 2024, 2, 29, 23, 59, 59, 500_000_000)),
+                 ("tmpl=-0099-01-01T00:00 (BCE)", ("ISO", -99, 1, 1, 0, 0, 0, 0)),
+                 ("tmpl=Julian -0043-03-15T12:00 (BCE)", ("Julian", -43, 3, 15, 12, 0, 0, 0))),
+    "instant": (("tmpl=1999-12-31T23:59:59.5Z", ("ISO", 1999, 12, 31, 23, 59, 59, 500_000_000)),
+                ("tmpl=-0099-01-01T00:00Z (BCE)", ("ISO", -99, 1, 1, 0, 0, 0, 0))),
     "annual": (("tmpl=01-31", (1, 31)), ("tmpl=02-29", (2, 29))),
 }
 
@@ -659,6 +665,10 @@ def check_custom_pattern(acc, hacc, kind, tier, pat, reps, rot, do_history):
                 continue
             if label.startswith("2dy=") and dict(pat.fields).get("yoe") != "yy":
                 continue
+            if label.startswith("tmpl=") and not label.startswith("tmpl=-") and "(BCE)" in label or label.startswith("tmpl=Julian"):
+                # non-ISO era templates: only where the template's era / calendar can matter
+                if not (set(pat.names) & {"yoe", "era", "cal", "year"}):
+                    continue
             if label.startswith("cal=") and "mtext" in pat.names and label[4:] == "Badi":
                 # the Badi template (2000-01-01 ISO) lies in month 16: no month name exists for it, and the property
                 # pairs month-name fields only with months 1-12
